@@ -14,6 +14,7 @@ import (
 	"sort"
 	"strings"
 	"syscall"
+	"time"
 
 	"verif/internal/prng"
 )
@@ -142,6 +143,9 @@ type Ctx struct {
 	violF    *os.File
 	curKind  string
 	curInput any
+
+	phaseName  string
+	phaseStart time.Time
 }
 
 func (c *Ctx) init() {
@@ -158,9 +162,18 @@ func (c *Ctx) init() {
 // Phase starts a new numbered block of cases; case numbers of different phases
 // never collide (phase index << 40).
 func (c *Ctx) Phase(name string) {
+	c.closePhase()
+	c.phaseName, c.phaseStart = name, time.Now()
 	c.phaseN++
 	c.base = c.phaseN << 40
 	c.cov["phase:"+name] += 0
+}
+
+func (c *Ctx) closePhase() {
+	if c.phaseName != "" {
+		c.cov["phase_ms:"+c.phaseName] += time.Since(c.phaseStart).Milliseconds()
+		c.phaseName = ""
+	}
 }
 
 // Case says whether case n of the current phase belongs to this child, and if
